@@ -13,3 +13,6 @@ open IrVerif.AtomicSave
 #print axioms C08_unload_crash
 #print axioms C08_unload_fs_frame
 #print axioms C08_small_loaded_first
+#print axioms C08_invalidated_spec
+#print axioms C08_invalidated_sub
+#print axioms C08_post_samefile
